@@ -176,6 +176,12 @@ static blk_t* new_block(size_t bytes, size_t align, int place, int off8, int is_
   uint8_t* s;
   if (is_lib) {
     s = (uint8_t*)(((uintptr_t)(end - bytes)) & ~(uintptr_t)(align - 1));
+    // malloc only promises 16-byte alignment: vary the phase modulo 64 (a block that is a multiple of 64 bytes long
+    // would otherwise always start on a 64-byte line, which no real allocator guarantees)
+    if (align <= 16) {
+      uint64_t k = ((g_heap_seed ^ (g_lib_seq + 1) * 0x9E3779B97F4A7C15ull) >> 29) & 3;
+      if (s - k * 16 >= base) s -= k * 16;
+    }
   } else if (place == SIM_PLACE_FLUSH_LOW) {
     s = base;
   } else if (place == SIM_PLACE_OFFSET) {
